@@ -61,8 +61,145 @@ SmokeExpand(t) == {Case("Sprintf", f, <<t>>, <<>>) : f \in SmokeFormats}
                         Case("Sprintf", Fv, <<t, t>>, <<>>), Case("Sprintf", <<A>>, <<t>>, <<>>), Case("Errorf", Fw \o Fw, <<t, t>>, <<>>),
                         Case("Errorf", Fw, <<t>>, <<>>), Case("Errorf", <<A>> \o Fv, <<t>>, <<>>)}
 
+---------------------------------------------------------------------------
+\* shared vocabulary of the systematic slices
+
+\* leaves with id i (and i+1 for an inner term): what a value can be as far as classification goes
+UStr(i)   == TStr(i, P(i))
+UInt(i)   == TInt(i, 3 + i)
+SVObj(i)  == TObj(i, {"SV"}, <<>>, <<>>, <<>>, <<>>)
+SVStr(i)  == TObj(i, {"SV", "ST"}, <<>>, <<>>, P(i), <<>>)
+RegObj(i) == TObj(i, {"REG"}, <<>>, <<>>, <<>>, <<>>)
+SMObj(i)  == TObj(i, {"SM"}, <<>>, <<>>, P(i), <<>>)
+StObj(i)  == TObj(i, {"ST"}, <<>>, <<>>, P(i), <<>>)
+ErObj(i)  == TObj(i, {"ER"}, <<>>, <<>>, P(i), <<>>)
+SafeStr(i) == TSafe(i, TStr(i + 1, P(i + 1)))
+SafeInt(i) == TSafe(i, TInt(i + 1, 4 + i))
+Leaf(kind, i) == CASE kind = "ustr" -> UStr(i) [] kind = "uint" -> UInt(i) [] kind = "sv" -> SVObj(i)
+                   [] kind = "svstr" -> SVStr(i) [] kind = "reg" -> RegObj(i) [] kind = "sm" -> SMObj(i)
+                   [] kind = "st" -> StObj(i) [] kind = "er" -> ErObj(i) [] kind = "nil" -> TNil(i)
+                   [] kind = "safestr" -> SafeStr(i) [] kind = "safeint" -> SafeInt(i)
+                   [] kind = "bool" -> TBool(i) [] kind = "float" -> TFloat(i)
+LeafKinds  == {"ustr", "uint", "sv", "svstr", "reg", "sm", "st", "er", "nil", "safestr", "safeint", "bool", "float"}
+QLeafKinds == {"ustr", "uint", "sv", "reg", "nil", "safestr", "st"}
+
+\* container shapes around two leaves a (ids 10..) and b (ids 20..); container ids 30..
+Shape(sh, a, b) ==
+  CASE sh = "top"     -> <<a>>
+    [] sh = "two"     -> <<a, b>>
+    [] sh = "slice"   -> <<TSlice(30, <<a, b>>)>>
+    [] sh = "mapval"  -> <<TMap(30, <<TInt(31, 1), a, TInt(32, 2), b>>)>>
+    [] sh = "mapkey"  -> <<TMap(30, <<a, TInt(31, 1)>>)>>
+    [] sh = "structEE" -> <<TStruct(30, <<a, b>>, <<FALSE, FALSE>>)>>
+    [] sh = "structEu" -> <<TStruct(30, <<a, b>>, <<FALSE, TRUE>>)>>
+    [] sh = "ptr"     -> <<TPtrTo(33, TStruct(30, <<a, b>>, <<FALSE, TRUE>>))>>
+    [] sh = "deep"    -> <<TSlice(30, <<TSlice(34, <<a>>), TStruct(35, <<b>>, <<FALSE>>)>>)>>
+    [] sh = "iface"   -> <<TStruct(30, <<TSlice(34, <<a, TNil(36)>>), b>>, <<TRUE, FALSE>>)>>
+Shapes  == {"top", "two", "slice", "mapval", "mapkey", "structEE", "structEu", "ptr", "deep", "iface"}
+QShapes == {"top", "two", "slice", "mapval", "structEu", "deep"}
+
+F6v == <<37, 54, 118>>   Fm6v == <<37, 45, 54, 118>>   F06d == <<37, 48, 54, 100>>  Fx2 == <<37, 120>>
+Around(f) == <<A, 32>> \o f \o <<32, A>>
+TwoFmt(f) == <<120, 61>> \o f \o <<32, 121, 61>> \o f                   \* "x=%v y=%v"
+ClsFormats  == {Fv, FplusV, FsharpV, F6v, Fm6v, Fs, Fd, Fx, Fq, FT}
+QClsFormats == {Fv, FplusV, FsharpV, F6v, Fd}
+
+\* ---- slice "cls" (C05, C02, C16): classification of leaves at top level and inside containers
+ClsRoots == [sh : IF Slice = "cls" THEN Shapes ELSE QShapes, ka : IF Slice = "cls" THEN LeafKinds ELSE QLeafKinds]
+ClsExpand(r) ==
+  LET kinds == IF Slice = "cls" THEN LeafKinds ELSE QLeafKinds
+      fmts  == IF Slice = "cls" THEN ClsFormats ELSE QClsFormats
+      kbs   == IF r.sh \in {"top", "mapkey"} THEN {"nil"} ELSE kinds
+  IN UNION {
+       LET ts == Shape(r.sh, Leaf(r.ka, 10), Leaf(kb, 20)) IN
+         {Case("Sprintf", IF Len(ts) = 2 THEN TwoFmt(f) ELSE Around(f), ts, <<>>) : f \in fmts}
+         \cup {Case("Sprint", <<>>, ts, <<>>)}
+       : kb \in kbs }
+
+\* ---- slice "wrap" (C06): Unsafe(x) / Safe(x) / nestings around every kind of x
+PlainX(i) == {UStr(i), UInt(i), TNil(i), TBool(i), TSlice(i, <<UStr(i + 1), UInt(i + 2)>>),
+              TStruct(i, <<UStr(i + 1), UInt(i + 2)>>, <<FALSE, TRUE>>), TMap(i, <<TInt(i + 1, 1), UStr(i + 2)>>),
+              TPtrTo(i, TStruct(i + 1, <<UInt(i + 2)>>, <<FALSE>>)), StObj(i), ErObj(i),
+              TObj(i, {"GS", "ST"}, <<>>, <<>>, P(i), <<>>), TObj(i, {}, <<>>, <<>>, <<>>, <<>>)}
+\* values with a classification of their own (for the Unsafe side of C06)
+ClassyX(i) == {SVObj(i), SVStr(i), RegObj(i), SMObj(i), SafeStr(i), TRStr(i, <<A>> \o StartM \o <<A + 1>> \o EndM),
+               TSlice(i, <<SafeStr(i + 1), SVObj(i + 3), TRStr(i + 4, StartM \o <<A>> \o EndM)>>),
+               TStruct(i, <<SafeStr(i + 1), RegObj(i + 3)>>, <<FALSE, TRUE>>),
+               TObj(i, {"SF"}, <<SSafeString(P(600)), SUnsafeString(P(700)), SSafeInt(i + 1, 5)>>, <<>>, <<>>, <<>>),
+               TObj(i, {"SF", "ST"}, <<SPrint(<<SafeStr(i + 1), UStr(i + 3)>>), SWrite(P(701))>>, <<>>, P(i), <<>>),
+               TObj(i, {"SF", "FM"}, <<SPrintf(<<A>> \o Fv \o Fd, <<SafeStr(i + 1), UInt(i + 3)>>)>>, <<SWrite(P(702))>>, <<>>, <<>>),
+               TObj(i, {"FM"}, <<>>, <<SWrite(P(702)), SDiscover, SSafeString(P(601)), SUnsafeString(P(703))>>, <<>>, <<>>),
+               TObj(i, {"FM"}, <<>>, <<SDiscover, SPrint(<<SafeStr(i + 1), UStr(i + 3)>>)>>, <<>>, <<>>),               \* F3
+               TObj(i, {"FM"}, <<>>, <<SDiscover, SPrintf(<<A>> \o Fd \o Fs, <<UInt(i + 1), SafeStr(i + 3)>>)>>, <<>>, <<>>), \* F3
+               TObj(i, {"ER", "SV"}, <<>>, <<>>, P(i), <<>>)}
+WrapKinds == {"U", "S", "US", "SU", "UUS", "SSU", "USU", "inU", "inS"}
+Wrapped(w, x) ==
+  CASE w = "U"   -> TUnsafe(51, x)
+    [] w = "S"   -> TSafe(51, x)
+    [] w = "US"  -> TUnsafe(52, TSafe(51, x))
+    [] w = "SU"  -> TSafe(52, TUnsafe(51, x))
+    [] w = "UUS" -> TUnsafe(53, TUnsafe(52, TSafe(51, x)))
+    [] w = "SSU" -> TSafe(53, TSafe(52, TUnsafe(51, x)))
+    [] w = "USU" -> TUnsafe(53, TSafe(52, TUnsafe(51, x)))
+    [] w = "inU" -> TUnsafe(53, TSlice(52, <<x, TSafe(54, TInt(55, 9))>>))
+    [] w = "inS" -> TSafe(53, TSlice(52, <<x, TUnsafe(54, TInt(55, 9))>>))
+WrapFormats == {Fv, Fs, Fd, FplusV, FsharpV, Fq, Fx, F6v, FT}
+WrapRoots == (PlainX(60) \cup ClassyX(60)) \X WrapKinds
+WrapExpand(r) == {Case("Sprintf", Around(f), <<Wrapped(r[2], r[1])>>, <<>>) : f \in WrapFormats}
+                 \cup {Case("Sprint", <<>>, <<Wrapped(r[2], r[1])>>, <<>>)}
+
+\* ---- slice "bytes" (C01, C03): concrete payload bytes in every position that reaches the buffer
+A6 == {226, 128, 185, 186, 97, 10}
+Pay(nmax) == UNION {[1..k -> A6] : k \in 0..nmax}
+BytePos(p, q) == {
+  <<Fv \o Fv, <<TStr(1, p), TStr(2, q)>>>>, <<Fs \o <<A>> \o Fv, <<TStr(1, p), TSafe(3, TStr(2, q))>>>>,
+  <<p \o Fv \o q, <<TStr(1, <<A>>)>>>>, <<p \o Fv \o q, <<TUnsafe(2, TStr(1, <<A>>))>>>>,
+  <<Fv, <<TSlice(3, <<TStr(1, p), TStr(2, q)>>)>>>>,
+  <<Fv, <<TObj(1, {"ST"}, <<>>, <<>>, p, <<>>)>>>>, <<Fv \o Fv, <<TObj(1, {"ER"}, <<>>, <<>>, p, <<>>), TObj(2, {"SM"}, <<>>, <<>>, q, <<>>)>>>>,
+  <<Fv, <<TObj(1, {"SF"}, <<SSafeString(p), SUnsafeString(q), SSafeString(p)>>, <<>>, <<>>, <<>>)>>>>,
+  <<Fv, <<TObj(1, {"SF"}, <<SUnsafeString(p), SWrite(q), SPrint(<<TStr(2, p)>>)>>, <<>>, <<>>, <<>>)>>>>,
+  <<Fv, <<TObj(1, {"FM"}, <<>>, <<SWrite(p), SWrite(q)>>, <<>>, <<>>)>>>>,
+  <<Fv \o q, <<TObj(1, {"ST"}, <<>>, <<>>, <<>>, <<TStr(2, p)>>)>>>>,
+  <<Fd \o q, <<TStr(1, p)>>>>, <<Fv, <<TStr(1, p), TStr(2, q)>>>>,
+  <<Fv, <<TMap(3, <<TStr(1, p), TStr(2, q)>>)>>>>, <<FplusV, <<TStruct(3, <<TStr(1, p), TStr(2, q)>>, <<FALSE, TRUE>>)>>>>,
+  <<Fv \o Fv, <<TRStr(1, StartM \o <<A>> \o EndM), TStr(2, p)>>>>, <<Fv \o Fv, <<TStr(2, p), TRStr(1, StartM \o <<A>> \o EndM \o <<NL>>)>>>>
+}
+BytesRoots == Pay(IF Slice = "bytes" THEN 2 ELSE 1)
+BytesExpand(p) == UNION {{Case("Sprintf", x[1], x[2], <<>>) : x \in BytePos(p, q)} : q \in Pay(IF Slice = "bytes" THEN 2 ELSE 1)}
+
+\* ---- slice "panic" (C11): user methods that panic at every point, every payload kind, every context
+PanPayloads == {TStr(80, P(80)), TInt(80, 8), ErObj(80), TObj(80, {"ST"}, <<>>, <<>>, <<>>, <<TStr(81, P(81))>>),
+                TObj(80, {"SF"}, <<SUnsafeString(P(82))>>, <<>>, <<>>, <<>>), TSafe(83, TStr(80, P(80)))}
+PanObjs(pl) == {
+  TObj(1, {"ST"}, <<>>, <<>>, <<>>, <<pl>>), TObj(1, {"ER"}, <<>>, <<>>, <<>>, <<pl>>), TObj(1, {"GS", "ST"}, <<>>, <<>>, <<>>, <<pl>>),
+  TObj(1, {"SM"}, <<>>, <<>>, <<>>, <<pl>>), TObj(1, {"SV", "ST"}, <<>>, <<>>, <<>>, <<pl>>),
+  TObj(1, {"SF"}, <<SPanic(pl)>>, <<>>, <<>>, <<>>),
+  TObj(1, {"SF"}, <<SSafeString(P(600)), SPanic(pl)>>, <<>>, <<>>, <<>>),
+  TObj(1, {"SF"}, <<SSafeString(P(600)), SUnsafeString(P(700)), SPanic(pl), SSafeString(P(601))>>, <<>>, <<>>, <<>>),
+  TObj(1, {"SF"}, <<SUnsafeString(P(700)), SPrint(<<UStr(2)>>), SPanic(pl)>>, <<>>, <<>>, <<>>),
+  TObj(1, {"SF"}, <<SSafeString(P(600)), SPrint(<<TObj(2, {"SF"}, <<SUnsafeString(P(701)), SPanic(pl)>>, <<>>, <<>>, <<>>)>>), SSafeString(P(601))>>, <<>>, <<>>, <<>>),
+  TObj(1, {"SF"}, <<SPrintf(<<A>> \o Fv, <<TObj(2, {"ST"}, <<>>, <<>>, <<>>, <<pl>>)>>), SSafeString(P(601))>>, <<>>, <<>>, <<>>),
+  TObj(1, {"FM"}, <<>>, <<SWrite(P(702)), SPanic(pl)>>, <<>>, <<>>),
+  TObj(1, {"FM"}, <<>>, <<SDiscover, SSafeString(P(600)), SPanic(pl)>>, <<>>, <<>>),
+  TObj(1, {"ST", "NILP"}, <<>>, <<>>, <<>>, <<>>), TObj(1, {"SF", "NILP"}, <<>>, <<>>, <<>>, <<>>), TObj(1, {"ER", "FM", "NILP"}, <<>>, <<>>, <<>>, <<>>)
+}
+PanCtx(o) == {<<o>>, <<TSafe(90, o)>>, <<TUnsafe(90, o)>>, <<TSlice(91, <<UInt(92), o, UStr(93)>>)>>,
+              <<TStruct(91, <<o, UStr(93)>>, <<FALSE, TRUE>>)>>, <<TStruct(91, <<UStr(93), o>>, <<FALSE, TRUE>>)>>}
+PanicRoots == PanPayloads
+PanicExpand(pl) == UNION {UNION {{Case("Sprintf", Around(f), ts, <<>>) : f \in {Fv, Fd, FsharpV, F6v}}
+                                  \cup {Case("Sprint", <<>>, <<UInt(95)>> \o ts \o <<UStr(96)>>, <<>>)}
+                                 : ts \in PanCtx(o)} : o \in PanObjs(pl)}
+
 Roots     == CASE Slice = "smoke" -> SmokeRoots
+               [] Slice \in {"cls", "qcls"} -> ClsRoots
+               [] Slice = "wrap" -> WrapRoots
+               [] Slice \in {"bytes", "qbytes"} -> BytesRoots
+               [] Slice = "panic" -> PanicRoots
 Expand(r) == CASE Slice = "smoke" -> SmokeExpand(r)
+               [] Slice \in {"cls", "qcls"} -> ClsExpand(r)
+               [] Slice = "wrap" -> WrapExpand(r)
+               [] Slice \in {"bytes", "qbytes"} -> BytesExpand(r)
+               [] Slice = "panic" -> PanicExpand(r)
 
 ---------------------------------------------------------------------------
 VARIABLE root
@@ -78,6 +215,68 @@ Run(k) == CASE k.e = "Sprintf"  -> Sprintf(k.f, k.ts)
             [] k.e = "Sprintfn" -> Sprintfn(k.scr)
 
 (***************************************************************************)
+(* The STATEMENT-level classification, independent of modes, overrides     *)
+(* and restorers: an inherited attribute walked down the operand term.     *)
+(* Ctxs(t, inh, ro) = set of <<id, ctx>>: under which declaration the      *)
+(* renderings of term id stand ("safe", "unsafe", "none").                 *)
+(***************************************************************************)
+RECURSIVE Ctxs(_, _, _)
+Ctxs(t, inh, ro) ==
+  LET own == IF inh # "none" THEN inh                                   \* the outermost declaration wins
+             ELSE CASE t.k = "unsafe" -> "unsafe"
+                    [] t.k = "safe"   -> "safe"
+                    [] t.k = "obj" /\ "REG" \in t.caps /\ "NILP" \notin t.caps -> "safe"
+                    [] t.k = "obj" /\ "SV" \in t.caps /\ ~ro -> "safe"      \* O6: not seen behind an unexported field
+                    [] OTHER -> "none"
+      kids == IF t.k = "struct" THEN UNION {Ctxs(t.xs[i], own, ro \/ t.ro[i]) : i \in 1..Len(t.xs)}
+              ELSE UNION {Ctxs(t.xs[i], own, ro) : i \in 1..Len(t.xs)}
+  IN {<<t.id, own>>} \cup kids
+
+RECURSIVE SubTerms(_)
+SubTerms(t) == {t} \cup UNION {SubTerms(t.xs[i]) : i \in 1..Len(t.xs)}
+
+CtxMap(ts)  == UNION {Ctxs(ts[i], "none", FALSE) : i \in 1..Len(ts)}
+AllTerms(ts) == UNION {SubTerms(ts[i]) : i \in 1..Len(ts)}
+CtxOfId(ts, id)  == LET m == {x \in CtxMap(ts) : x[1] = id} IN IF m = {} THEN "none" ELSE (CHOOSE x \in m : TRUE)[2]
+TermOfId(ts, id) == LET m == {x \in AllTerms(ts) : x.id = id} IN IF m = {} THEN T0 ELSE CHOOSE x \in m : TRUE
+
+\* declared class of one token of the output
+DeclClass(ts, role, id) ==
+  LET cx == CtxOfId(ts, id)  t == TermOfId(ts, id) IN
+  CASE cx = "unsafe" -> "U"
+    [] cx = "safe"   -> "S"
+    [] OTHER -> IF role \in {"typename", "typefmt", "ifacetype"} \/ t.k = "nil" THEN "S"    \* names and <nil> are structure
+                ELSE IF role = "ret" /\ t.k = "obj" /\ "SM" \in t.caps /\ "SF" \notin t.caps THEN "S"   \* SafeMessage text
+                ELSE "U"
+TokClass(ts, rt, x) ==
+  IF x >= PTok THEN LET t == TermOfId(ts, x - PTok) IN DeclClass(ts, IF t.k = "string" THEN "val" ELSE "ret", x - PTok)
+  ELSE LET e == rt[x - RTok] IN DeclClass(ts, e.rk, e.id)
+
+HasUnsafeWrapper(ts) == \E t \in AllTerms(ts) : t.k = "unsafe"
+
+\* C05: deleting the envelopes leaves all structure and exactly the declared-safe renderings
+C05Holds(k, r) ==
+  LET out == Out(r) IN
+  DeleteEnvelopes(out) = SelectSeq(Strip(out), LAMBDA x : ~IsTok(x) \/ TokClass(k.ts, r.rt, x) = "S")
+
+\* C06 on the slice "wrap": root = <<x, wrapper nesting>>
+Outermost(w) == IF w \in {"U", "US", "UUS", "USU", "inU"} THEN "U" ELSE "S"
+C06Holds(k, r) ==
+  LET out == Out(r) IN
+  IF Outermost(root[2]) = "U"
+  THEN DeleteEnvelopes(out) = (IF k.e = "Sprintf" THEN <<A, 32, 32, A>> ELSE <<>>)      \* everything of the operand is enveloped
+  ELSE root[1] \in PlainX(60) => ~HasMarker(out)                                        \* nothing of it is
+
+\* C11 on the slice "panic": contained, reported in place, text around intact
+PanicReport == PercentBang
+C11Holds(k, r) ==
+  LET propagates == \* only a panic raised while printing the panic payload may propagate
+        \E t \in PanObjs(root) : \E u \in {root} : u.k = "obj" /\ (u.pan # <<>> \/ \E i \in 1..Len(u.scr) : u.scr[i].o = "Panic")
+  IN IF Exc(r) THEN propagates
+     ELSE LET s == Strip(Out(r)) IN
+          k.e = "Sprintf" => (HasPrefix(s, <<A, 32>>) /\ HasSuffix(s, <<32, A>>))
+
+(***************************************************************************)
 (* ONE zero-arity definition refers to the printer operators: TLC's        *)
 (* start-up level analysis costs several seconds for each such definition. *)
 (* Check evaluates the selected invariants on the result of the case and   *)
@@ -91,6 +290,9 @@ Check == lvl = 1 =>
   /\ Holds("WellFormed", ok => (WellFormed(Out(r)) /\ LineSafe(Out(r))))
   \* restorer discipline: a top-level call ends with no override and clean flags
   /\ Holds("Restored", ok => (r.ov = "none" /\ ~r.erroring /\ ~r.panicking))
+  /\ Holds("C05", (ok /\ Slice \in {"cls", "qcls"}) => C05Holds(c, r))
+  /\ Holds("C06", (ok /\ Slice = "wrap") => C06Holds(c, r))
+  /\ Holds("C11", (Slice = "panic") => C11Holds(c, r))
   /\ (EmitOn => PrintT(ToJson([c |-> c, exc |-> ~ok, out |-> IF ok THEN Out(r) ELSE <<>>, rt |-> r.rt,
                                 calls |-> r.calls, werr |-> r.wrappedErr])))
 =============================================================================
